@@ -35,6 +35,11 @@ def _worker_main(conn, mem_bytes, env):
     except Exception:
         pass
     sys.setrecursionlimit(1000)
+    # results travel over the pipe; whatever scripts print (console.log) is noise
+    try:
+        sys.stdout = open(os.devnull, "w")
+    except Exception:
+        pass
     cache = {}
     while True:
         try:
